@@ -50,9 +50,12 @@ def _ann(name, atoms):
 
 def _mk_sig(spec, atoms, ret):
     params = []
-    for i, (nm, ann, kwonly) in enumerate(spec):
+    for i, p in enumerate(spec):
+        nm, ann, kwonly = p[0], p[1], p[2]
+        has_default = len(p) > 3 and p[3]
         kind = ParameterKind.KEYWORD_ONLY if kwonly else ParameterKind.POSITIONAL_OR_KEYWORD
-        params.append(SigParameter(nm, kind, annotation=_ann(ann, atoms)))
+        params.append(SigParameter(nm, kind, annotation=_ann(ann, atoms),
+                                   default=_ann(ann, atoms) if has_default else None))
     return Signature.make(params, ret)
 
 
@@ -71,7 +74,8 @@ def _members(name):
 
 def _ref_sig_accepts(rel, atoms, spec, call) -> bool:
     """does one overload bind the call shape and accept every argument? (Any accepted everywhere)"""
-    names = [nm for nm, _, _ in spec]
+    spec = [tuple(p) + (False,) * (4 - len(p)) for p in spec]
+    names = [p[0] for p in spec]
     given = {}
     pos = [a for a in call if a[0] is None]
     posparams = [p for p in spec if not p[2]]
@@ -85,9 +89,11 @@ def _ref_sig_accepts(rel, atoms, spec, call) -> bool:
         if lbl not in names or lbl in given:
             return False
         given[lbl] = argname
-    for nm, ann, kwonly in spec:
+    for nm, ann, kwonly, has_default in spec:
         if nm not in given:
-            return False  # no defaults in these signatures
+            if has_default:
+                continue
+            return False
         argname = given[nm]
         if argname == "any":
             continue
@@ -201,7 +207,7 @@ def _sig_specs(nparams_options, kwonly_options):
 
 def _label(sigs, call):
     def s1(spec):
-        return "(" + ",".join(("*" if k else "") + nm + ":" + a for nm, a, k in spec) + ")"
+        return "(" + ",".join(("*" if p[2] else "") + p[0] + ":" + p[1] + ("=" if len(p) > 3 and p[3] else "") for p in spec) + ")"
     return "".join(s1(s) for s in sigs) + "<-" + ",".join((lbl + "=" if lbl else "") + a for lbl, a in call)
 
 
@@ -273,6 +279,25 @@ def cases(tier: str, seed: int) -> List[Case]:
                         if any(c.label == lab for c in out[-4:]):
                             continue
                         out.append(Case("h08", lab, {"sigs": sigs, "call": call}, timeout=60 if quick else 180, twin=(idx % 6 == 0)))
+    # an overload whose second parameter has a default, next to a one-parameter overload: calls with one argument
+    # reach both
+    for s1 in one[:3]:
+        for s2 in two[:8]:
+            s2d = [list(s2[0]), list(s2[1]) + [True]]
+            for a1 in args2:
+                for a2 in [None, "a0", "u01"]:
+                    idx += 1
+                    if (idx + seed) % (6 if quick else 2) != 0:
+                        continue
+                    if a2 is not None and a1[0] == "u" and a2[0] == "u":
+                        continue
+                    if a2 is not None and "any" in (a1, a2) and (a1[0] == "u" or a2[0] == "u"):
+                        continue
+                    kw2 = s2d[1][2]
+                    call = [[None, a1]] + ([[("y" if kw2 else None), a2]] if a2 is not None else [])
+                    for order in ((s1, s2d), (s2d, s1)):
+                        sigs = [[list(p) for p in s] for s in order]
+                        out.append(Case("h08", _label(sigs, call), {"sigs": sigs, "call": call}, timeout=60 if quick else 180, twin=True))
     # de-duplicate labels
     seen = set()
     res = []
